@@ -40,6 +40,10 @@ def plan(tier, seed):
     return specs
 
 
+SUPER_POLYNOMIAL = {"permutations"}
+BIG_POOL = {"list-big", "set-big", "map-big", "str-big"}
+
+
 class Runner:
     def __init__(self, ctx, legacy):
         self.ctx = ctx
@@ -66,6 +70,11 @@ class Runner:
         ctx.count("outcome_" + o.kind)
         if o.kind == "value":
             ctx.maxstat("max_steps_terminating", o.steps)
+            # "yields a value": a well-formed one (host payloads of the promised types all the way down)
+            bad = core.value_malformed(o.value)
+            ctx.count("value_wellformedness_checks")
+            if bad:
+                ctx.violation("C13:%s:malformed-value" % callee, "%s yields %s" % (prog, bad), {"src": prog})
             return o
         if o.kind == "rte":
             ctx.maxstat("max_steps_terminating", o.steps)
@@ -117,6 +126,10 @@ class Runner:
         # candidate hang: confirm with a much larger budget before calling it one
         # (factorial-size but finite computations, e.g. permutations of an 8-character string)
         self.fresh()
+        if callee.split("->")[-1] in SUPER_POLYNOMIAL and any(n in BIG_POOL for n in names):
+            # the result itself has more than 10^100 elements: not a question of termination
+            ctx.count("super_polynomial_results_skipped")
+            return o
         if callee in self.confirmed_hangs:
             ctx.violation("C13:%s:hang" % callee, "%s exceeded %d steps (callee already confirmed hanging)" % (prog, BUDGET), {"src": prog})
             return o
